@@ -163,15 +163,18 @@ func (g *progGen) expr(t ty, depth int, sc *scope) MalType {
 		f := ls(sy("fn"), pv, g.expr(t, depth-1, sc2))
 		return List{Val: append([]MalType{f}, args...)}
 	case 5:
-		// closure bound with let, capturing a variable, called later (maybe twice)
+		// closure bound with let, capturing a variable, called later (maybe twice); the name is unique per
+		// nesting level: with one fixed name an inner body that calls the OUTER closure would, at run time,
+		// call itself through the let scope it captures (accidental unbounded recursion)
 		cap := r.pick(varNames)
 		sc2 := sc.withVar(cap, tInt)
 		p := r.pick(varNames)
+		fname := "f" + string(rune('0'+depth%10))
 		body := g.expr(t, depth-2, sc2.withVar(p, tInt))
 		f := ls(sy("fn"), vc(sy(p)), body)
-		sc3 := sc2.withFn(fnInfo{name: "f", arity: 1, returns: t})
-		return ls(sy("let"), vc(sy(cap), g.expr(tInt, depth-1, sc), sy("f"), f),
-			call1("f", g.expr(tInt, depth-1, sc3)))
+		sc3 := sc2.withFn(fnInfo{name: fname, arity: 1, returns: t})
+		return ls(sy("let"), vc(sy(cap), g.expr(tInt, depth-1, sc), sy(fname), f),
+			call1(fname, g.expr(tInt, depth-1, sc3)))
 	case 6:
 		// call of a known function
 		var fs []fnInfo
